@@ -114,7 +114,7 @@ func runSched(sc *SchedCase) (violation string) {
 	close(clk.resume)
 	select {
 	case <-done:
-	case <-time.After(10 * time.Second):
+	case <-time.After(180 * time.Second):
 		return "the parked write did not return"
 	}
 	wg.Wait()
